@@ -18,6 +18,18 @@ CHECKS = {
             "symbol / missing transition rejects, only Reject is ever raised. Model tied to the code by exact comparison of yields, "
             "outcome kind, accepts_input, `in`, read_input on generated machines x words.",
             "Open known finding: a state named None (sentinel collision).", "7/C01"),
+    "C08": ("Coq theorems about executable models of the nine NFA operations (+ eliminate_lambda, + finite compositions) and "
+            "differential correspondence against /repo via the extracted model and an independent word-level oracle",
+            "Proved for all valid NFA operands (unbounded states, alphabets, words): union, concatenate, kleene_star, option, reverse, "
+            "intersection, shuffle_product, right_quotient, left_quotient (model = repaired code) each return Ok with a valid NFA whose "
+            "language is exactly the textbook operation of Spec/Lang.v; eliminate_lambda preserves the language and leaves no empty-string "
+            "edge; every finite composition (expression tree) of the operations evaluates without error to the composed language. union, "
+            "concatenate and reverse additionally assume rows_keyed (every transition row belongs to a state). Nothing partial. Model tied "
+            "to the code per case by valid + exact language equality (verified comparator, explicit fuel) and by a word-level oracle on all "
+            "words up to length 5 (4 for 3 symbols); operators + | & included.",
+            "Known defect demonstrated on the unchanged tree: left_quotient raises MissingStateError (DESIGN 8 row 3). Open known finding: "
+            "nfa_stray_transition_row (a row keyed by a non-state passes validate(); union/concatenate raise KeyError, reverse "
+            "InvalidStateError).", "7/C08"),
 }
 
 PENDING = {}
